@@ -230,6 +230,7 @@ UNDERLYINGS = {
     "NthSpot": (lambda vc: [2], (2, 2)),
     "Indicators": (lambda vc: [pos_list(vc, "thresholds", [2.0, 5.0])], (2, 2)),
     "Mean": (lambda vc: [], (3, 2)),
+    "Asian": (lambda vc: [], (3,)),
 }
 
 
